@@ -64,7 +64,7 @@ def run(ctx) -> None:
     from . import c19
     from .common import Relabel
     ctx.rule("R17.6", "any_iter awaits every awaitable it is given and iterates only what is not awaitable (R19.2, shared)")
-    c19.r19_2(Relabel(ctx, "R17.6"))
+    c19.r19_2(Relabel(ctx, "R17.6"), project="awaits")
     ctx.floor("modules", 11)
     ctx.floor("await_sites", 45)
     ctx.floor("async_for_sites", 15)
